@@ -145,6 +145,131 @@ fn w_update_stale() -> bool {
     typed != 777
 }
 
+// ---- C13: schedules driven through the public Cache trait ------------------------------------
+mod sched {
+    use pdf::file::Cache;
+    use pdf::object::PlainRef;
+    use std::sync::{Arc, Condvar, Mutex};
+
+    /// A cache that computes every time (like NoCache) but lets the test decide when each
+    /// computation may start: `gate(key)` blocks until `open(key)` was called, and announces
+    /// that the caller is inside the cache (after the resolver pushed its guard entry).
+    #[derive(Clone, Default)]
+    pub struct Gate(pub Arc<(Mutex<(Vec<u64>, Vec<u64>)>, Condvar)>); // (inside, opened)
+    impl Gate {
+        pub fn wait_inside(&self, id: u64) {
+            let (m, c) = &*self.0;
+            let mut g = m.lock().unwrap();
+            while !g.0.contains(&id) { g = c.wait(g).unwrap(); }
+        }
+        pub fn open(&self, id: u64) {
+            let (m, c) = &*self.0;
+            m.lock().unwrap().1.push(id);
+            c.notify_all();
+        }
+    }
+    impl<T: Clone> Cache<T> for Gate {
+        fn get_or_compute(&self, key: PlainRef, compute: impl FnOnce() -> T) -> T {
+            let (m, c) = &*self.0;
+            {
+                let mut g = m.lock().unwrap();
+                g.0.push(key.id);
+                c.notify_all();
+                while !g.1.contains(&key.id) { g = c.wait(g).unwrap(); }
+            }
+            compute()
+        }
+        fn clear(&self) {}
+    }
+}
+
+fn w_conc_spurious_recursive() -> bool {
+    use pdf::file::{FileOptions, NoCache};
+    use pdf::object::*;
+    let data = mkpdf(&[(1, CATALOG), (2, PAGES), (3, PAGE), (4, "132")], "");
+    let gate = sched::Gate::default();
+    gate.open(1); gate.open(2); gate.open(3); // loading the catalog / page tree is not gated
+    let file = FileOptions::uncached().cache(gate.clone(), NoCache).load(data).unwrap();
+    let r = file.resolver();
+    let (a, b) = std::thread::scope(|s| {
+        let t1 = s.spawn(|| r.get::<i32>(Ref::from_id(4)).map(|v| *v).map_err(|e| e.to_string()));
+        gate.wait_inside(4);                 // T1 pushed (4 0 R) on the guard stack and sits in the cache
+        let t2 = s.spawn(|| r.get::<i32>(Ref::from_id(4)).map(|v| *v).map_err(|e| e.to_string()));
+        let b = loop { if t2.is_finished() { break t2.join().unwrap(); } std::thread::yield_now(); if false { break Ok(0); } };
+        gate.open(4);
+        (t1.join().unwrap(), b)
+    });
+    println!("T1 -> {:?}; overlapping T2 -> {:?} (sequentially both return Ok(132))", a, b);
+    a == Ok(132) && b != Ok(132)
+}
+
+fn w_conc_assert_poison() -> bool {
+    use pdf::file::{FileOptions, NoCache};
+    use pdf::object::*;
+    let data = mkpdf(&[(1, CATALOG), (2, PAGES), (3, PAGE), (4, "132"), (5, "7")], "");
+    let gate = sched::Gate::default();
+    gate.open(1); gate.open(2); gate.open(3);
+    let file = FileOptions::uncached().cache(gate.clone(), NoCache).load(data).unwrap();
+    let r = file.resolver();
+    let res = std::thread::scope(|s| {
+        let t1 = s.spawn(|| std::panic::catch_unwind(std::panic::AssertUnwindSafe(|| r.get::<i32>(Ref::from_id(4)).map(|v| *v).map_err(|e| e.to_string()))));
+        gate.wait_inside(4);
+        let t2 = s.spawn(|| std::panic::catch_unwind(std::panic::AssertUnwindSafe(|| r.get::<i32>(Ref::from_id(5)).map(|v| *v).map_err(|e| e.to_string()))));
+        gate.wait_inside(5);                 // guard stack is now [4, 5]
+        gate.open(4);                        // T1 finishes first and pops ... 5
+        let a = t1.join().unwrap();
+        gate.open(5);
+        let b = t2.join().unwrap();
+        (a.is_err(), b.is_err())
+    });
+    let after = std::panic::catch_unwind(std::panic::AssertUnwindSafe(|| r.get::<i32>(Ref::from_id(5)).is_ok()));
+    println!("T1 panicked: {}, T2 panicked: {}, later load on the same resolver: {:?}", res.0, res.1, after.map_err(|_| "panic (poisoned lock)"));
+    res.0 || res.1
+}
+
+fn w_conc_deadlock() -> bool {
+    use pdf::file::{FileOptions, Log};
+    use pdf::object::*;
+    use std::sync::{Arc, Mutex, Condvar};
+    // two page-tree nodes naming each other as /Parent (a reference cycle through an eagerly loaded field)
+    let data = mkpdf(&[(1, CATALOG), (2, PAGES), (3, PAGE),
+        (10, "<< /Type /Pages /Parent 11 0 R /Kids [] /Count 0 >>"),
+        (11, "<< /Type /Pages /Parent 10 0 R /Kids [] /Count 0 >>")], "");
+    #[derive(Clone, Default)]
+    struct Rendezvous(Arc<(Mutex<Vec<u64>>, Condvar)>);
+    impl Log for Rendezvous {
+        fn load_object(&self, r: PlainRef) {
+            // called from inside the compute closure: wait until both threads are computing their first object
+            if r.id == 10 || r.id == 11 {
+                let (m, c) = &*self.0;
+                let mut g = m.lock().unwrap();
+                if !g.contains(&r.id) { g.push(r.id); }
+                c.notify_all();
+                let deadline = std::time::Instant::now() + std::time::Duration::from_secs(2);
+                while g.len() < 2 && std::time::Instant::now() < deadline {
+                    g = c.wait_timeout(g, std::time::Duration::from_millis(100)).unwrap().0;
+                }
+            }
+        }
+    }
+    let file = Arc::new(FileOptions::cached().log(Rendezvous::default()).load(data).unwrap());
+    let done = Arc::new(Mutex::new(0));
+    for id in [10u64, 11] {
+        let file = file.clone();
+        let done = done.clone();
+        std::thread::spawn(move || {
+            let r = file.resolver();           // one resolver per thread
+            let res = r.get::<PagesNode>(Ref::from_id(id)).map(|_| ()).map_err(|e| e.to_string().chars().take(50).collect::<String>());
+            println!("thread loading {} 0 R returned {:?}", id, res);
+            *done.lock().unwrap() += 1;
+        });
+    }
+    std::thread::sleep(std::time::Duration::from_secs(4));
+    let n = *done.lock().unwrap();
+    println!("after 4 s: {} of 2 threads returned (sequentially each load returns an error at once)", n);
+    n < 2
+}
+
 fn main() {
     let all: Vec<(&str, fn() -> bool)> = vec![
         ("lzw_predictor", w_lzw_predictor),
@@ -155,6 +280,9 @@ fn main() {
         ("cache_image", w_cache_image),
         ("cache_err_type", w_cache_err_type),
         ("update_stale", w_update_stale),
+        ("conc_spurious_recursive", w_conc_spurious_recursive),
+        ("conc_assert_poison", w_conc_assert_poison),
+        ("conc_deadlock", w_conc_deadlock),
     ];
     let want: Vec<String> = std::env::args().skip(1).collect();
     for (n, f) in all {
